@@ -1,6 +1,7 @@
 SPECIFICATION Spec
 CONSTANTS
   MaxVer = 6
+  VerCodes = {13, 0, 1001, 1002}
 ACTION_CONSTRAINT Emit
 INVARIANTS OutOfRangeNeverAnswered NoSupportedVersionNeverAnswered OtherServerNeverAnswered MustImpliesSupported FirstFourAlwaysAnswered
 CHECK_DEADLOCK FALSE
